@@ -3,8 +3,9 @@
    positive/N/Z/nat stay extracted Coq datatypes. No Extract Constant anywhere. *)
 From Coq Require Import ExtrOcamlBasic.
 From Coq Require Import NArith ZArith.
-From KV Require Import Model.Normalize Model.OutBS Model.InBS Model.Handoff.
+From KV Require Import Model.Normalize Model.OutBS Model.InBS Model.Handoff Model.Writer Model.Reader.
 Extraction "kvmodel.ml" N.add Z.add Normalize.normalize
   OutBS.new_obs OutBS.write_bit OutBS.write_bits OutBS.write_array OutBS.close OutBS.written OutBS.o_out OutBS.o_calls
+  Writer.init_w Writer.w_write Writer.w_close Writer.chunks Reader.init_r Reader.r_read Reader.close_r
   Handoff.init Handoff.step Handoff.first_error Handoff.all_done
   InBS.new_ibs InBS.read_bit InBS.read_bits InBS.read_array InBS.iclose InBS.bits_read.
